@@ -9,7 +9,7 @@ open Goloop.C14
 
 /-! ### small facts -/
 
-theorem dataOf_norm (b : Int) (st : Option KV) : dataOf b (normStore st) = dataOf b st := by
+theorem dataOf_norm (b : Hdr) (st : Option KV) : dataOf b (normStore st) = dataOf b st := by
   unfold dataOf normStore
   split <;> simp
 
@@ -27,12 +27,12 @@ theorem normStore_of_normal {s : Option KV} (h : s ≠ some []) : normStore s = 
   · exact absurd rfl h
   · rfl
 
-theorem normal_norm (n : Nat) (b : Int) (st : Option KV) : Normal ⟨n, b, normStore st⟩ := by
+theorem normal_norm (n : Nat) (b : Hdr) (st : Option KV) : Normal ⟨n, b, normStore st⟩ := by
   unfold Normal normStore; split <;> simp_all
 
 /-- logical content of a mutable account state -/
 def absSt (st : AState) : Option AcctData :=
-  if contentEmpty st.bal st.store then none else some (dataOf st.bal st.store)
+  if contentEmpty st.hdr st.store then none else some (dataOf st.hdr st.store)
 
 theorem abs_eq (w : World) (a : Nat) :
     w.abs a = match w.macc a with
@@ -41,11 +41,11 @@ theorem abs_eq (w : World) (a : Nat) :
   unfold World.abs absSt; rfl
 
 theorem absSnap_normal {s : Snap} (h : Normal s) :
-    absSnap (some s) = if contentEmpty s.bal s.store then none else some (dataOf s.bal s.store) := by
+    absSnap (some s) = if contentEmpty s.hdr s.store then none else some (dataOf s.hdr s.store) := by
   unfold absSnap Snap.isEmpty contentEmpty
   rw [normStore_of_normal h]
 
-theorem absSnap_mk (n : Nat) (b : Int) (st : Option KV) :
+theorem absSnap_mk (n : Nat) (b : Hdr) (st : Option KV) :
     absSnap (some ⟨n, b, normStore st⟩) = absSt ⟨b, st, none⟩ := by
   unfold absSnap Snap.isEmpty absSt contentEmpty
   simp only [dataOf_norm]
@@ -65,7 +65,7 @@ structure LocInv (tr : Option Snap) (st : Option AState) (la : Option Snap) (poo
   /-- tries never hold empty accounts -/
   nonempty : ∀ s, (tr = some s ∨ pool s) → s.isEmpty = false
   /-- a cached snapshot describes the state's current content -/
-  last : ∀ x s, st = some x → x.last = some s → s.bal = x.bal ∧ s.store = normStore x.store
+  last : ∀ x s, st = some x → x.last = some s → s.hdr = x.hdr ∧ s.store = normStore x.store
   /-- lastAccounts entry = what the trie holds for a cached account -/
   la_tr : ∀ x, st = some x →
     (∀ y, la = some y → (y.isEmpty = true ∧ tr = none) ∨ tr = some y) ∧ (la = none → tr = none)
@@ -76,7 +76,7 @@ theorem LocInv.mono {tr st la pool next tr' st' la' pool' next'}
     (hr : ∀ s, Reach tr' st' la' pool' s → Reach tr st la pool s)
     (hn : next ≤ next')
     (hne : ∀ s, (tr' = some s ∨ pool' s) → s.isEmpty = false)
-    (hl : ∀ x s, st' = some x → x.last = some s → s.bal = x.bal ∧ s.store = normStore x.store)
+    (hl : ∀ x s, st' = some x → x.last = some s → s.hdr = x.hdr ∧ s.store = normStore x.store)
     (hla : ∀ x, st' = some x →
       (∀ y, la' = some y → (y.isEmpty = true ∧ tr' = none) ∨ tr' = some y) ∧ (la' = none → tr' = none)) :
     LocInv tr' st' la' pool' next' :=
@@ -89,7 +89,7 @@ theorem LocInv.add {tr st la pool next tr' st' la' pool'} (n : Snap)
     (hn : n.stamp = next) (hnorm : Normal n)
     (hr : ∀ s, Reach tr' st' la' pool' s → s = n ∨ Reach tr st la pool s)
     (hne : ∀ s, (tr' = some s ∨ pool' s) → s.isEmpty = false)
-    (hl : ∀ x s, st' = some x → x.last = some s → s.bal = x.bal ∧ s.store = normStore x.store)
+    (hl : ∀ x s, st' = some x → x.last = some s → s.hdr = x.hdr ∧ s.store = normStore x.store)
     (hla : ∀ x, st' = some x →
       (∀ y, la' = some y → (y.isEmpty = true ∧ tr' = none) ∨ tr' = some y) ∧ (la' = none → tr' = none)) :
     LocInv tr' st' la' pool' (next + 1) := by
@@ -112,9 +112,9 @@ theorem LocInv.add {tr st la pool next tr' st' la' pool'} (n : Snap)
 
 /-- GetSnapshot: the snapshot describes the state, the state's content is unchanged -/
 theorem getSnapshot_spec (st : AState) (next : Nat)
-    (hl : ∀ s, st.last = some s → s.bal = st.bal ∧ s.store = normStore st.store) :
-    (st.getSnapshot next).2.bal = st.bal ∧ (st.getSnapshot next).2.store = normStore st.store ∧
-    (st.getSnapshot next).1.bal = st.bal ∧ (st.getSnapshot next).1.store = st.store ∧
+    (hl : ∀ s, st.last = some s → s.hdr = st.hdr ∧ s.store = normStore st.store) :
+    (st.getSnapshot next).2.hdr = st.hdr ∧ (st.getSnapshot next).2.store = normStore st.store ∧
+    (st.getSnapshot next).1.hdr = st.hdr ∧ (st.getSnapshot next).1.store = st.store ∧
     (st.getSnapshot next).1.last = some (st.getSnapshot next).2 ∧
     (st.last = some (st.getSnapshot next).2 ∨ (st.last = none ∧ (st.getSnapshot next).2.stamp = next)) := by
   unfold AState.getSnapshot
@@ -125,14 +125,14 @@ theorem getSnapshot_spec (st : AState) (next : Nat)
   · rename_i hs
     exact ⟨rfl, rfl, rfl, rfl, rfl, Or.inr ⟨hs, rfl⟩⟩
 
-theorem absSnap_of_state (s : Snap) (st : AState) (hb : s.bal = st.bal) (hs : s.store = normStore st.store) :
+theorem absSnap_of_state (s : Snap) (st : AState) (hb : s.hdr = st.hdr) (hs : s.store = normStore st.store) :
     absSnap (some s) = absSt st := by
   obtain ⟨n, b, sto⟩ := s
   simp only at hb hs
   subst hb; subst hs
   rw [absSnap_mk]; rfl
 
-theorem absSt_congr (a b : AState) (h1 : a.bal = b.bal) (h2 : a.store = b.store) : absSt a = absSt b := by
+theorem absSt_congr (a b : AState) (h1 : a.hdr = b.hdr) (h2 : a.store = b.store) : absSt a = absSt b := by
   unfold absSt; rw [h1, h2]
 
 theorem absSnap_empty {s : Snap} (h : s.isEmpty = true) : absSnap (some s) = none := by
@@ -179,12 +179,12 @@ theorem flushOne_abs {tr st la pool next} (x : AState) (h : LocInv tr st la pool
 
 /-- accountStateImpl.Reset(v): afterwards the state's content is the snapshot's -/
 theorem reset_abs (x : AState) (v : Snap) (hv : Normal v)
-    (hl : ∀ s, x.last = some s → s.bal = x.bal ∧ s.store = normStore x.store)
+    (hl : ∀ s, x.last = some s → s.hdr = x.hdr ∧ s.store = normStore x.store)
     (hinj : ∀ s, x.last = some s → s.stamp = v.stamp → s = v) :
     absSt (x.reset v) = absSnap (some v) ∧
-    (∀ s, (x.reset v).last = some s → s.bal = (x.reset v).bal ∧ s.store = normStore (x.reset v).store) ∧
+    (∀ s, (x.reset v).last = some s → s.hdr = (x.reset v).hdr ∧ s.store = normStore (x.reset v).store) ∧
     ((x.reset v).last = some v) := by
-  have full : absSt ⟨v.bal, v.store, some v⟩ = absSnap (some v) := by
+  have full : absSt ⟨v.hdr, v.store, some v⟩ = absSnap (some v) := by
     rw [absSnap_normal hv]; rfl
   unfold AState.reset
   simp only
@@ -313,7 +313,7 @@ theorem flush_inv (w : World) (pool : Nat → Snap → Prop) (h : WInv w pool) :
       · exact ha.nonempty s (Or.inr r)
       · exact htr r
     have hl' : ∀ y s, some (x.getSnapshot w.next).1 = some y → y.last = some s →
-        s.bal = y.bal ∧ s.store = normStore y.store := by
+        s.hdr = y.hdr ∧ s.store = normStore y.store := by
       intro y s hy hs
       simp only [Option.some.injEq] at hy; subst hy
       rw [gs.2.2.2.2.1] at hs
@@ -340,7 +340,7 @@ theorem flush_inv (w : World) (pool : Nat → Snap → Prop) (h : WInv w pool) :
       · exact Or.inr (Or.inr (Or.inl ⟨x, hm, e ▸ hlast⟩))
       · exact r
     · refine ha.add (x.getSnapshot w.next).2 hfresh ?_ hreach hne hl' hla
-      have : (x.getSnapshot w.next).2 = ⟨(x.getSnapshot w.next).2.stamp, x.bal, normStore x.store⟩ := by
+      have : (x.getSnapshot w.next).2 = ⟨(x.getSnapshot w.next).2.stamp, x.hdr, normStore x.store⟩ := by
         rw [← gs.1, ← gs.2.1]
       rw [this]; exact normal_norm _ _ _
 
@@ -359,8 +359,8 @@ theorem WInv.sub_pool {w pool pool'} (h : WInv w pool) (hp : ∀ a s, pool' a s 
     · exact (h a).nonempty s (Or.inl r)
     · exact (h a).nonempty s (Or.inr (hp a s r))
 
-theorem ofSnap_some (t : Snap) : AState.ofSnap (some t) = ⟨t.bal, t.store, some t⟩ := rfl
-theorem ofSnap_none : AState.ofSnap none = ⟨0, none, none⟩ := rfl
+theorem ofSnap_some (t : Snap) : AState.ofSnap (some t) = ⟨t.hdr, t.store, some t⟩ := rfl
+theorem ofSnap_none : AState.ofSnap none = ⟨Hdr.zero, none, none⟩ := rfl
 
 theorem upd_same {α} (f : Nat → α) (a : Nat) (v : α) : upd f a v a = v := by simp [upd]
 theorem upd_other {α} (f : Nat → α) (a b : Nat) (v : α) (h : b ≠ a) : upd f a v b = f b := by simp [upd, h]
@@ -372,7 +372,7 @@ theorem ofSnap_last (tr : Option Snap) (s : Snap) (h : (AState.ofSnap tr).last =
 
 theorem ofSnap_last_spec (tr : Option Snap) (s : Snap) (hn : ∀ t, tr = some t → Normal t)
     (h : (AState.ofSnap tr).last = some s) :
-    s.bal = (AState.ofSnap tr).bal ∧ s.store = normStore (AState.ofSnap tr).store := by
+    s.hdr = (AState.ofSnap tr).hdr ∧ s.store = normStore (AState.ofSnap tr).store := by
   cases tr with
   | none => rw [ofSnap_none] at h; cases h
   | some t =>
@@ -471,6 +471,21 @@ theorem setValue_last (x : AState) (k v : Nat) : (x.setValue k v).1.last = none 
   unfold AState.setValue; split
   · exact deleteValue_last x k
   · exact Or.inl rfl
+
+theorem deploy_inv (w : World) (pool) (h : WInv w pool) (a c : Nat) : WInv (w.deploy a c) pool := by
+  have g := getAccountState_spec w pool h a
+  unfold World.deploy
+  exact putState_inv _ pool g.1 a _ _ g.2.1 (Or.inl rfl)
+
+theorem setObjGraph_last (x : AState) (nh g : Nat) : (x.setObjGraph nh g).last = none ∨ x.setObjGraph nh g = x := by
+  unfold AState.setObjGraph; split
+  · exact Or.inr rfl
+  · exact Or.inl rfl
+
+theorem setObjGraph_inv (w : World) (pool) (h : WInv w pool) (a nh g : Nat) : WInv (w.setObjGraph a nh g) pool := by
+  have gs := getAccountState_spec w pool h a
+  unfold World.setObjGraph
+  exact putState_inv _ pool gs.1 a _ _ gs.2.1 (setObjGraph_last _ nh g)
 
 theorem setBalance_inv (w : World) (pool) (h : WInv w pool) (a : Nat) (v : Int) : WInv (w.setBalance a v) pool := by
   have g := getAccountState_spec w pool h a
@@ -616,7 +631,7 @@ theorem getAccountSnapshot_spec (w : World) (pool) (h : WInv w pool) (a : Nat) :
             rw [gs.2.2.2.2.1] at hl; left; simpa using hl.symm
           · exact Or.inr (Or.inr (Or.inr (Or.inr r)))
         have hl' : ∀ y s, some (x.getSnapshot w.next).1 = some y → y.last = some s →
-            s.bal = y.bal ∧ s.store = normStore y.store := by
+            s.hdr = y.hdr ∧ s.store = normStore y.store := by
           intro y s hy hs
           simp only [Option.some.injEq] at hy; subst hy
           rw [gs.2.2.2.2.1] at hs
@@ -629,7 +644,7 @@ theorem getAccountSnapshot_spec (w : World) (pool) (h : WInv w pool) (a : Nat) :
           · exact Or.inr (Or.inr (Or.inl ⟨x, hm, e ▸ hlast⟩))
           · exact r
         · refine ha.add (x.getSnapshot w.next).2 hfresh ?_ hreach (fun s r => ha.nonempty s r) hl' (fun y _ => ha.la_tr x hm)
-          have : (x.getSnapshot w.next).2 = ⟨(x.getSnapshot w.next).2.stamp, x.bal, normStore x.store⟩ := by
+          have : (x.getSnapshot w.next).2 = ⟨(x.getSnapshot w.next).2.stamp, x.hdr, normStore x.store⟩ := by
             rw [← gs.1, ← gs.2.1]
           rw [this]; exact normal_norm _ _ _
       · simp only [upd_other _ _ _ _ hb]
@@ -729,14 +744,22 @@ theorem init_inv : WInv World.init (fun _ _ => False) := by
 def obsBal (d : Option AcctData) : Int := (d.map (·.bal)).getD 0
 /-- storage value of an account in the abstract state (absent = none) -/
 def obsGet (d : Option AcctData) (k : Nat) : Option Nat := d.bind (·.get k)
+/-- current contract code / its object graph in the abstract state (absent = none) -/
+def obsCode (d : Option AcctData) : Option Nat := d.bind (·.code)
+def obsGraph (d : Option AcctData) : Option Graph := d.bind (·.graph)
 
 theorem obs_absSt (x : AState) :
-    obsBal (absSt x) = x.bal ∧ ∀ k, obsGet (absSt x) k = kvGet (x.store.getD []) k := by
+    obsBal (absSt x) = x.hdr.bal ∧ (∀ k, obsGet (absSt x) k = kvGet (x.store.getD []) k) ∧
+    obsCode (absSt x) = x.hdr.code ∧ obsGraph (absSt x) = x.hdr.graph := by
   unfold absSt contentEmpty
   split
   · rename_i he
     simp only [Bool.and_eq_true, beq_iff_eq] at he
-    refine ⟨by simp [obsBal, he.1], fun k => ?_⟩
+    have hc : x.hdr.code = none := by
+      cases h : x.hdr.code with
+      | none => rfl
+      | some c => rw [h] at he; simp at he
+    refine ⟨by simp [obsBal, he.1.1], fun k => ?_, by simp [obsCode, hc], by simp [obsGraph, Hdr.graph, hc]⟩
     have : x.store.getD [] = [] := by
       cases hs : x.store with
       | none => rfl
@@ -745,7 +768,7 @@ theorem obs_absSt (x : AState) :
         | nil => rfl
         | cons p ps => rw [hs] at he; simp [normStore] at he
     rw [this]; rfl
-  · exact ⟨rfl, fun k => rfl⟩
+  · exact ⟨rfl, fun k => rfl, rfl, rfl⟩
 
 theorem kvGet_kvDel (l : KV) (k k' : Nat) : kvGet (kvDel l k) k' = if k' = k then none else kvGet l k' := by
   unfold kvGet kvDel
@@ -769,6 +792,23 @@ theorem kvGet_kvDel (l : KV) (k k' : Nat) : kvGet (kvDel l k) k' = if k' = k the
         have : (k' == pk) = false := by simp; exact fun e => hp e.symm
         simp [this]
       · simp [hk]
+
+theorem lookup_filter_ne {β} (l : List (Nat × β)) (id : Nat) : (l.filter (fun p => p.1 != id)).lookup id = none := by
+  induction l with
+  | nil => rfl
+  | cons p ps ih =>
+    obtain ⟨pk, pv⟩ := p
+    by_cases hp : pk = id
+    · subst hp; simp only [List.filter_cons, bne_self_eq_false, Bool.false_eq_true, if_false]; exact ih
+    · have h1 : (pk != id) = true := by simp [hp]
+      have h2 : (id == pk) = false := by simp; exact fun e => hp e.symm
+      simp only [List.filter_cons, h1, if_true, List.lookup_cons, h2]; exact ih
+
+theorem ogGet_ogSet (c : OgCache) (id : Nat) (g : Option Graph) : ogGet (ogSet c id g) id = g := by
+  unfold ogGet ogSet
+  cases g with
+  | none => exact lookup_filter_ne _ _
+  | some g => simp [List.lookup_cons]
 
 theorem kvGet_kvSet (l : KV) (k v k' : Nat) : kvGet (kvSet l k v) k' = if k' = k then some v else kvGet l k' := by
   unfold kvSet
@@ -812,6 +852,8 @@ theorem step_inv (h : Hist) (op : Op) (hi : Inv h) : Inv (h.step op) := by
   | setBalance a v => exact setBalance_inv _ _ hi a v
   | setValue a k v => exact setValue_inv _ _ hi a k v
   | deleteValue a k => exact deleteValue_inv _ _ hi a k
+  | deploy a c => exact deploy_inv _ _ hi a c
+  | setObjGraph a nh g => exact setObjGraph_inv _ _ hi a nh g
   | touch a => exact (getAccountState_spec _ _ hi a).1
   | peek a => exact (getAccountSnapshot_spec _ _ hi a).2.2
   | snapshot =>
